@@ -125,6 +125,19 @@ def nested_mask_cases():
             ok = all(ch in "xyzw" for ch in second) and all("xyzw".index(ch) < n1 for ch in second) or \
                 all(ch in "rgba" for ch in second) and all("rgba".index(ch) < n1 for ch in second)
             out.append(("mask-nested", "float4", "t.%s.%s" % (first, second), bool(ok), True))
+    # every link of a chain is checked against the size of what it is applied to: an invalid *inner* mask under a valid outer one
+    def mask_ok(mask, size):
+        return any(all(ch in S for ch in mask) and all(S.index(ch) < size for ch in mask) for S in ("xyzw", "rgba"))
+
+    for base, bn in (("float2", 2), ("float3", 3), ("float4", 4), ("int2", 2)):
+        for first in ("xy", "yx", "zw", "xg", "w", "xz", "zz", "ba", "xyz", "yyyy", "q"):
+            for second in ("x", "y", "z", "xy", "r"):
+                ok = mask_ok(first, bn) and mask_ok(second, len(first))
+                out.append(("mask-chain", base, "t.%s.%s" % (first, second), ok, True))
+    for base, bn in (("float2", 2), ("float4", 4)):
+        for a_, b_, c_ in (("xy", "zw", "x"), ("xy", "yx", "x"), ("xy", "yx", "z"), ("zw", "xy", "x"), ("xyzw", "wz", "y"), ("xw", "y", "x"), ("xy", "x", "y")):
+            ok = mask_ok(a_, bn) and mask_ok(b_, len(a_)) and mask_ok(c_, len(b_))
+            out.append(("mask-chain3", base, "t.%s.%s.%s" % (a_, b_, c_), ok, True))
     for m in ("x", "z", "w", "xyz", "xw", "rgb", "a", "rx", "qq"):
         ok3 = (all(ch in "xyzw" for ch in m) and all("xyzw".index(ch) < 3 for ch in m)) or \
             (all(ch in "rgba" for ch in m) and all("rgba".index(ch) < 3 for ch in m))
